@@ -30,7 +30,7 @@ DESIGN_REF = "DESIGN.md §5 C04"
 LEVEL_TEXT = ("seeded exploration of plans (valid/invalid steps at every position, both settings of the allow switch, file and "
               "in-memory delivery, read faults); every triplet and the exported text are checked against the reference "
               "interpreter; sampling, not proof")
-LEVEL_NOTE = "trusts the reference interpreter; clean feature profile (no or/forall preconditions: known findings D2/D3)"
+LEVEL_NOTE = "trusts the reference interpreter; nested or/and, forall and unwrapped preconditions included (D2/D3/D25 repaired); no numeric comparison inside a nested condition"
 
 
 def find_invalid_call(W, S, stream, tries=10):
